@@ -1,0 +1,59 @@
+//go:build verif
+// +build verif
+
+// Contracts for the deductive verifier in /verif (govc). Comment-only: this file adds no code.
+
+package bmtree
+
+// ---- C10: path words ----
+
+//@ func NewPath returns (p)
+//@   requires 0 <= length && length <= height && height <= 32
+//@   ensures p == (searchingBits << 32) | (lowmask(int(length)) << uint64(height - length))
+//@   assigns nothing
+
+//@ func PathLen returns (l)
+//@   ensures l == PC32(uint32(p))
+//@   assigns nothing
+
+//@ func PathHeight returns (h)
+//@   ensures h == 32 - lz32(uint32(path))
+//@   assigns nothing
+
+//@ func PathBits returns (b)
+//@   ensures b == path >> 32
+//@   assigns nothing
+
+//@ func PathMask returns (m)
+//@   ensures m == path & 0xffffffff
+//@   assigns nothing
+
+//@ func Height returns (h)
+//@   ensures h == 31 - lz32(uint32(bitmapSize))
+//@   assigns nothing
+
+// ---- C11: PathOf / PathsOf ----
+
+//@ func PathOf returns (p)
+//@   requires 0 <= frombit && frombit < 0x7fffff00 && 0 <= height && height <= 32 && len(s) < 1<<27
+//@   defines pathOf(s, frombit, height)
+//@   ensures p & 0xffffffff == lowmask(int(clamp32(int32(len(s)*8) - frombit, 0, height))) << uint64(height - clamp32(int32(len(s)*8) - frombit, 0, height))
+//@   ensures p >> 32 <= lowmask(int(height))
+//@   ensures forall t int32 :: 0 <= t && t < height ==> (p >> uint64(32 + height - 1 - t)) & 1 == ite(t < clamp32(int32(len(s)*8) - frombit, 0, height), sbit(s, frombit + t), uint64(0))
+//@   assigns nothing
+
+//@ func PathsOf returns (rst)
+//@   requires 0 <= frombit && frombit < 0x7fffff00 && 0 <= height && height <= 32
+//@   requires forall i int :: 0 <= i && i < len(keys) ==> len(keys[i]) < 1<<27
+//@   ensures !dedup ==> len(rst) == len(keys) && (forall i int :: 0 <= i && i < len(keys) ==> rst[i] == pathOf(keys[i], frombit, height))
+//@   ensures dedup ==> len(rst) == cntKept(keys, frombit, height, len(keys))
+//@   ensures dedup ==> (forall i int :: 0 <= i && i < len(keys) && keptPath(keys, frombit, height, i) ==> rst[cntKept(keys, frombit, height, i)] == pathOf(keys[i], frombit, height))
+//@   ensures fresh(rst)
+//@   assigns nothing
+//@   loop 1
+//@     invariant -1 <= rangeindex && rangeindex < len(keys) && fresh(rst)
+//@     invariant rangeindex >= 0 ==> prev == pathOf(keys[rangeindex], frombit, height)
+//@     invariant rangeindex == -1 ==> prev == 0xffffffffffffffff
+//@     invariant !dedup ==> len(rst) == rangeindex + 1 && (forall i int :: 0 <= i && i <= rangeindex ==> rst[i] == pathOf(keys[i], frombit, height))
+//@     invariant dedup ==> len(rst) == cntKept(keys, frombit, height, rangeindex + 1) && len(rst) <= rangeindex + 1
+//@     invariant dedup ==> (forall i int :: 0 <= i && i <= rangeindex && keptPath(keys, frombit, height, i) ==> 0 <= cntKept(keys, frombit, height, i) && cntKept(keys, frombit, height, i) < len(rst) && rst[cntKept(keys, frombit, height, i)] == pathOf(keys[i], frombit, height))
